@@ -149,6 +149,37 @@ def d2(cx: Cx, ob: Ob) -> None:
                         ob.undecide("synonym mapping happens in parse_header in an unrecognised form")
         else:
             falsy = any(g.kind == "guard" and g.a == header and g.b is False for g in ctx.guards)
+            SUP = ("gconst", U, "CONTENT_TYPE_TO_RDFLIB_FORMAT")
+            if t != default and not falsy:
+                # other shapes of the same negotiation
+                checked = any(g.kind == "guard" and g.b is True and op(g.a) == "cmp" and g.a[1] == "in" and g.a[2] == t and g.a[3] == SUP for g in ctx.guards)
+                if checked and any(x == header for x in subterms(t)):
+                    # shortcut: the header as a whole (after synonym mapping) is a supported type
+                    ob.site(f"{where(hh, line)} {hh.qualname}", f"shortcut return {show(t)[:50]}")
+                    continue
+                if op(t) == "call" and t[1] == ("builtin", "next") and len(t[2]) == 2 and t[2][1] == default and op(t[2][0]) == "comp" and len(t[2][0][3]) == 1:
+                    comp = t[2][0]
+                    tgt, it, ifs = comp[3][0]
+                    src = it
+                    if op(src) == "comp" and src[1] in ("gen", "list") and len(src[3]) == 1 and not src[3][0][2]:
+                        src = src[3][0][1]  # a mapped view (synonym mapping) of the parsed header
+                    from_parser = op(src) == "call" and src[1] == ("func", f"{U}.parse_header") and src[2] == (header,)
+                    guarded = any(op(c) == "cmp" and c[1] == "in" and c[2] == comp[2] and c[3] == SUP for c in ifs)
+                    ob.site(f"{where(hh, line)} {hh.qualname}", f"return next(<first supported>, default)")
+                    saw_loop = saw_fall = True
+                    if not from_parser:
+                        ob.violate(hh.qualname, where(hh, line), f"handle_header iterates `{show(it)[:50]}`, not parse_header(header)", detail="source")
+                    elif not guarded:
+                        ob.violate(hh.qualname, where(hh, line), "handle_header returns a media type without checking it against the supported result types", detail="unchecked")
+                    else:
+                        saw_loop = saw_fall = True
+                    continue
+                if is_const(t) or op(t) == "param":
+                    ob.violate(hh.qualname, where(hh, line), f"handle_header returns `{show(t)[:40]}` where the default belongs", detail="default")
+                else:
+                    ob.undecide(f"handle_header returns `{show(t)[:60]}`: negotiation shape not recognised")
+                    saw_loop = saw_fall = True  # do not add negative-evidence findings on top
+                continue
             if falsy:
                 saw_falsy = True
             else:
@@ -352,17 +383,6 @@ def d5(cx: Cx, ob: Ob) -> None:
         pass
     myb = mirror(yb)
     myb = ("tuple", (myb[1][2], myb[1][1], myb[1][0]))
-    def atoms(gs, f):
-        out = set()
-        for g, pol in gs:
-            if pol is not True:
-                continue
-            for x in (g[1] if op(g) == "and" else (g,)):
-                out.add((f(x), True))
-        return out
-
-    mgb_bound = atoms(gb, mirror)
-    ga_bound = atoms(ga, lambda x: x)
     if ya != myb:
         ob.violate(
             fn.qualname,
@@ -371,8 +391,54 @@ def d5(cx: Cx, ob: Ob) -> None:
             witness="binding ?s and binding ?o to the same URI must return the same set of equivalents on the other side",
             detail="asymmetric-yield",
         )
-    if ga_bound != mgb_bound:
-        ob.violate(fn.qualname, where(fn, branches[1][0].line), "the two branches are guarded asymmetrically", witness=f"{sorted(show(g) for g, _ in ga_bound)} vs mirrored {sorted(show(g) for g, _ in mgb_bound)}", detail="asymmetric-guard")
+    # under which (subject unbound?, object unbound?) combinations does each branch run
+    SN, ON = ("cmp", "is", S, ("const", None)), ("cmp", "is", O, ("const", None))
+
+    class _U(Exception):
+        pass
+
+    def ev_(t, env):
+        o_ = op(t)
+        if t == SN:
+            return env[0]
+        if t == ON:
+            return env[1]
+        if o_ == "cmp" and t[1] == "is not" and is_const(t[3], None) and t[2] in (S, O):
+            return not (env[0] if t[2] == S else env[1])
+        if o_ == "not":
+            return not ev_(t[1], env)
+        if o_ == "truth":
+            return ev_(t[1], env)
+        if o_ == "and":
+            return all(ev_(x, env) for x in t[1])
+        if o_ == "or":
+            return any(ev_(x, env) for x in t[1])
+        if o_ == "cmp" and t[1] in ("==", "!=", "is", "is not") and any(x in (SN, ON) or (op(x) == "cmp" and x[2] in (S, O)) for x in (t[2], t[3])):
+            l, r = ev_(t[2], env), ev_(t[3], env)
+            return (l == r) if t[1] in ("==", "is") else (l != r)
+        if o_ == "const" and isinstance(t[1], bool):
+            return t[1]
+        raise _U(show(t)[:50])
+
+    def region(gs):
+        out = set()
+        for sn in (False, True):
+            for on in (False, True):
+                if all(ev_(g, (sn, on)) == pol for g, pol in gs):
+                    out.add((sn, on))
+        return out
+
+    try:
+        ra, rb = region(ga), region(gb)
+    except _U as e:
+        ob.undecide(f"triples: guard `{e}` on the pattern sides not recognised")
+        ra = rb = None
+    if ra is not None:
+        if ra != {(o_, s_) for s_, o_ in rb}:
+            ob.violate(fn.qualname, where(fn, branches[1][0].line), "the two branches are guarded asymmetrically", witness=f"(subject unbound, object unbound) combinations: {sorted(ra)} vs {sorted(rb)}", detail="asymmetric-guard")
+        for (yy, gg), reg in ((a, ra), (b, rb)):
+            if reg - {(True, False), (False, True)}:
+                ob.violate(fn.qualname, fn.where, f"a branch also runs when both or neither side of the pattern is bound: {sorted(reg)}", detail="binding-region")
     # the bound side is echoed, the free side comes from _expand_pair_all(bound)
     for yy, gg in (a, b):
         s_, p_, o_ = yy[1]
